@@ -1,9 +1,10 @@
-(* Extract_wire.v — extraction of the wire codec model (TM.Wire) and of the
+(* Extract_wire.v — extraction of the wire codec model (TM.Wire), of the tablet-mode
+   switch reader model and specification (TM.TabletWire) and of the
    specification-side checkers (TM.WireSpec) to OCaml for ocaml/wire_check.ml.
    Directives: ExtrOcamlBasic and ExtrOcamlString only; N, Z, positive, nat stay
    the extracted inductive types; no Extract Constant / Extract Inductive of ours. *)
 From Coq Require Import ExtrOcamlBasic ExtrOcamlString.
-From TM Require Import Base Mapper Wire WireSpec.
+From TM Require Import Base Mapper Wire WireSpec TabletWire.
 From TMGen Require KeyTable.
 
 (* the model *)
@@ -25,5 +26,11 @@ Definition x_key_codes := key_codes.
 Definition x_key_table := TMGen.KeyTable.key_table.
 Definition x_kernel_code_of_ident (id : String.string) := kernel_code (kernel_name id).
 
+(* the tablet-mode switch reader (property C12): model, specification, checker for the real reader's answers *)
+Definition x_decode_tablet_run := decode_tablet_run.
+Definition x_tablet_events_of := tablet_events_of.
+Definition x_check_switch_reader := check_switch_reader.
+
 Extraction "model.ml" x_encode_batch x_decode_run x_check_write x_check_roundtrip x_check_reader
-  x_mk_raw x_raw_stream x_raw_events x_raw_wf x_unmatched_idents x_matched_count x_table_ok x_key_codes x_key_table x_kernel_code_of_ident.
+  x_mk_raw x_raw_stream x_raw_events x_raw_wf x_unmatched_idents x_matched_count x_table_ok x_key_codes x_key_table x_kernel_code_of_ident
+  x_decode_tablet_run x_tablet_events_of x_check_switch_reader.
